@@ -58,6 +58,10 @@ mod c14;
 #[cfg(not(feature = "security"))]
 mod c15;
 mod c20;
+#[cfg(feature = "security")]
+mod c16;
+#[cfg(feature = "security")]
+mod c19;
 
 fn main() {
   let args: Vec<String> = std::env::args().collect();
@@ -164,6 +168,21 @@ fn main() {
     ("C20", None) => c20::run(&tier),
     ("C20", Some(d)) => c20::replay(&d),
     ("C12", Some(d)) => c12::replay(&d),
+    #[cfg(feature = "security")]
+    ("SECSMOKE", None) => {
+      for l in rustdds::verif::sec::smoke() {
+        println!("{l}");
+      }
+      0
+    }
+    #[cfg(feature = "security")]
+    ("C19", None) => c19::run(&tier),
+    #[cfg(feature = "security")]
+    ("C19", Some(d)) => c19::replay(&d),
+    #[cfg(feature = "security")]
+    ("C16", None) => c16::run(&tier),
+    #[cfg(feature = "security")]
+    ("C16", Some(d)) => c16::replay(&d),
     _ => {
       eprintln!("no check for {id} in this build");
       2
